@@ -5,8 +5,10 @@ package props
 
 import (
 	"fmt"
+	"math/rand/v2"
 	"sort"
 	"strings"
+	"sync"
 )
 
 // Elem is the element type put into containers under test: Key is what
@@ -106,4 +108,32 @@ func (l *opLog) list() []string {
 	}
 	out := append([]string{fmt.Sprintf("... %d earlier operations omitted ...", len(l.ops)-400)}, l.ops[len(l.ops)-400:]...)
 	return out
+}
+
+// concurrently runs f in n goroutines, each with its own PRNG derived from
+// seed, and returns the first problem any of them reports. The goroutines share
+// nothing of the harness's (each verifies only its own results), so that no
+// harness synchronisation hides a data race in the code under test.
+func concurrently(n int, seed uint64, f func(g int, r *rand.Rand) string) string {
+	errs := make([]string, n)
+	var wg sync.WaitGroup
+	for g := 0; g < n; g++ {
+		wg.Add(1)
+		go func(g int) {
+			defer wg.Done()
+			defer func() {
+				if p := recover(); p != nil {
+					errs[g] = fmt.Sprintf("goroutine %d panicked: %v", g, p)
+				}
+			}()
+			errs[g] = f(g, rand.New(rand.NewPCG(seed, uint64(g)+1)))
+		}(g)
+	}
+	wg.Wait()
+	for _, e := range errs {
+		if e != "" {
+			return e
+		}
+	}
+	return ""
 }
